@@ -1009,6 +1009,194 @@ theorem Aligned.unique {A B : Ktensor α} {r : Nat} (h : Aligned A B r) {n m : N
   have := h n hn h1 m hm (Ne.symm hne)
   linarith
 
+/-! ### an even number of negatively correlated modes leaves none -/
+
+theorem countP_neg_sorted (t : List α) (hs : t.Pairwise (· ≤ ·)) (bp : Nat) (hbp : bp < t.length)
+    (hneg : t.getD bp 0 < 0) (hafter : ∀ j, bp < j → j < t.length → 0 ≤ t.getD j 0) :
+    t.countP (fun x => decide (x < 0)) = bp + 1 := by
+  conv_lhs => rw [← List.take_append_drop (bp + 1) t]
+  rw [List.countP_append]
+  have h1 : (t.take (bp + 1)).countP (fun x => decide (x < 0)) = (t.take (bp + 1)).length := by
+    rw [List.countP_eq_length]
+    intro x hx
+    obtain ⟨i, hi, rfl⟩ := List.getElem_of_mem hx
+    rw [List.length_take] at hi
+    rw [List.getElem_take, decide_eq_true_eq]
+    have := sorted_getD_le t hs i bp (by omega) hbp
+    rw [List.getD_eq_getElem?_getD, List.getElem?_eq_getElem (by omega : i < t.length)] at this
+    simp only [Option.getD_some] at this
+    linarith
+  have h2 : (t.drop (bp + 1)).countP (fun x => decide (x < 0)) = 0 := by
+    rw [List.countP_eq_zero]
+    intro x hx
+    obtain ⟨i, hi, rfl⟩ := List.getElem_of_mem hx
+    rw [List.length_drop] at hi
+    rw [List.getElem_drop, decide_eq_true_eq, not_lt]
+    have := hafter (bp + 1 + i) (by omega) (by omega)
+    rw [List.getD_eq_getElem?_getD, List.getElem?_eq_getElem (by omega : bp + 1 + i < t.length)] at this
+    simpa using this
+  rw [h1, h2, List.length_take]
+  omega
+
+theorem fixsignsEndpt_even_count (t : List α) (N RB e : Nat) (hlen : t.length = N) (hs : t.Pairwise (· ≤ ·))
+    (h : fixsignsEndpt true t N RB = .ok (some e)) (hev : t.countP (fun x => decide (x < 0)) % 2 = 0) :
+    ∀ j, j < N → 0 ≤ flipped t e j := by
+  unfold fixsignsEndpt at h
+  split at h
+  · cases h
+  · rename_i bp hl
+    obtain ⟨hbp, hneg, hafter⟩ := (lastFilter_spec (fun j => decide (t.getD j 0 < 0)) t.length).1 bp hl
+    simp only [decide_eq_true_eq] at hneg
+    have hafter' : ∀ j, bp < j → j < t.length → 0 ≤ t.getD j 0 := by
+      intro j h1 h2
+      have := hafter j h1 h2
+      simpa using this
+    have hcount := countP_neg_sorted t hs bp hbp hneg hafter'
+    rw [hcount] at hev
+    have e1 : ((bp + 1) % 2 == 0) = true := by rw [beq_iff_eq]; exact hev
+    rw [e1] at h
+    simp only [if_true] at h
+    injection h with h; injection h with h
+    subst h
+    intro j hj
+    unfold flipped
+    split
+    · have := sorted_getD_le t hs j bp (by omega) hbp; linarith
+    · exact hafter' j (by omega) (by omega)
+
+/-- the number of modes of component `r` that are negatively correlated with the reference -/
+def negCount (A B : Ktensor α) (r : Nat) : Nat :=
+  ((List.range A.factors.length).filter fun n => decide (refScore A B r n < 0)).length
+
+theorem negCount_congr {A A' B : Ktensor α} {r : Nat} (hN : A'.factors.length = A.factors.length)
+    (h : ∀ n, (A'.factors.getD n []).col r = (A.factors.getD n []).col r) : negCount A' B r = negCount A B r := by
+  unfold negCount
+  rw [hN]
+  congr 1
+  apply List.filter_congr
+  intro n _
+  rw [refScore_congr A A' B r n (h n)]
+
+theorem map_range_getD_self (s : List α) : (List.range s.length).map (fun k => s.getD k 0) = s := by
+  apply List.ext_getElem
+  · simp
+  · intro k h1 h2
+    rw [List.getElem_map, List.getElem_range, List.getD_eq_getElem?_getD, List.getElem?_eq_getElem h2]
+    rfl
+
+theorem fixsignsRefComp_even {S : Services α} (hS : S.Lawful) (B A : Ktensor α) (r : Nat) {A' : Ktensor α}
+    (h : fixsignsRefComp S true B A r = .ok A') (hev : negCount A B r % 2 = 0) :
+    ∀ n, n < A.factors.length → 0 ≤ refScore A' B r n := by
+  obtain ⟨hr, _, e, he, hA', hend⟩ := fixsignsRefComp_flips hS B A r h
+  have hp := hS.argsort_perm (scoreList A B r)
+  have hsl : (scoreList A B r).length = A.factors.length := by simp [scoreList, ndims]
+  have hp' := hp
+  rw [hsl] at hp
+  have hσlen := isPermOf_length_eq hp
+  have hσnd := isPermOf_nodup hp
+  have hms : ∀ n ∈ (S.argsort (scoreList A B r)).take e, n < A.factors.length :=
+    fun n hn => isPermOf_lt_of_mem hp (List.mem_of_mem_take hn)
+  have hmsnd : ((S.argsort (scoreList A B r)).take e).Nodup := hσnd.sublist (List.take_sublist _ _)
+  have hcol := foldl_negCol_col A _ r hms hmsnd
+  rw [← hA'] at hcol
+  have hsorted := hS.argsort_sorted (scoreList A B r)
+  have htlen : ((S.argsort (scoreList A B r)).map fun k => (scoreList A B r).getD k 0).length
+      = A.ndims := by simp [hσlen, ndims]
+  have hsget : ∀ n, n < A.factors.length → (scoreList A B r).getD n 0 = refScore A B r n := by
+    intro n hn
+    unfold scoreList
+    rw [getD_map_range _ _ _ _ (by simpa [ndims] using hn)]
+  have htget : ∀ j, j < A.factors.length →
+      ((S.argsort (scoreList A B r)).map fun k => (scoreList A B r).getD k 0).getD j 0
+        = refScore A B r ((S.argsort (scoreList A B r)).getD j 0) := by
+    intro j hj
+    rw [getD_map_of_lt _ _ _ 0 _ (by omega), hsget _ (isPermOf_getD_lt hp hj)]
+  have hnew : ∀ j, j < A.factors.length →
+      refScore A' B r ((S.argsort (scoreList A B r)).getD j 0)
+        = flipped ((S.argsort (scoreList A B r)).map fun k => (scoreList A B r).getD k 0) e j := by
+    intro j hj
+    unfold refScore flipped
+    rw [hcol _ r hr, htget j hj]
+    have := getD_mem_take_iff _ hσnd e j (by omega)
+    by_cases hje : j < e
+    · rw [if_pos ⟨this.2 hje, rfl⟩, if_pos hje, dot_neg]; rfl
+    · rw [if_neg (fun hc => hje (this.1 hc.1)), if_neg hje]; rfl
+  -- the sorted scores hold as many negatives as the modes do
+  have hcount : ((S.argsort (scoreList A B r)).map fun k => (scoreList A B r).getD k 0).countP
+      (fun x => decide (x < 0)) = negCount A B r := by
+    have hperm : ((S.argsort (scoreList A B r)).map fun k => (scoreList A B r).getD k 0).Perm (scoreList A B r) := by
+      have := ((isPermOf_perm hp').map fun k => (scoreList A B r).getD k 0).symm
+      rwa [map_range_getD_self] at this
+    rw [hperm.countP_eq]
+    unfold negCount scoreList
+    rw [List.countP_map, List.countP_eq_length_filter]
+    rfl
+  intro n hn
+  obtain ⟨j, hj, rfl⟩ := perm_pos hp hn
+  rw [hnew j hj]
+  rcases hend with hend | ⟨rfl, hend⟩
+  · exact fixsignsEndpt_even_count _ A.ndims B.ncomp e htlen hsorted hend (by rw [hcount]; exact hev) j
+      (by simpa [ndims] using hj)
+  · have := fixsignsEndpt_none _ _ _ hend j (by rw [htlen]; simpa [ndims] using hj)
+    unfold flipped
+    rw [if_neg (Nat.not_lt_zero _)]
+    exact this
+
+theorem foldlM_fixsignsRefComp_even {S : Services α} (hS : S.Lawful) (B A : Ktensor α) (rs : List Nat)
+    (hnd : rs.Nodup) {A' : Ktensor α} (h : rs.foldlM (fixsignsRefComp S true B) A = .ok A') :
+    ∀ r ∈ rs, negCount A B r % 2 = 0 → ∀ n, n < A.factors.length → 0 ≤ refScore A' B r n := by
+  induction rs generalizing A with
+  | nil => intro r hr; cases hr
+  | cons r0 rs ih =>
+    rw [List.foldlM_cons] at h
+    rw [List.nodup_cons] at hnd
+    cases h1 : fixsignsRefComp S true B A r0 with
+    | error e => rw [h1] at h; cases h
+    | ok A1 =>
+      rw [h1] at h
+      obtain ⟨g1, g2, _, _, _, g6⟩ := fixsignsRefComp_spec hS B A r0 h1
+      obtain ⟨hr0, _⟩ := fixsignsRefComp_flips hS B A r0 h1
+      obtain ⟨k1, _, _, _, k5⟩ := foldlM_fixsignsRefComp_other hS B A1 rs h
+      intro r hr hev n hn
+      rcases List.mem_cons.1 hr with rfl | hr
+      · rw [refScore_congr A1 A' B r n (k5 r hnd.1 (by rw [g2]; exact hr0) n)]
+        exact fixsignsRefComp_even hS B A r h1 hev n hn
+      · have hne : r ≠ r0 := fun e => hnd.1 (e ▸ hr)
+        have hrA : r < A.ncomp := by
+          -- a later round for `r` succeeded, so `r` is a component
+          by_contra hc
+          obtain ⟨pre, suf, rfl⟩ := List.append_of_mem hr
+          have h' : (pre ++ r :: suf).foldlM (fixsignsRefComp S true B) A1 = .ok A' := h
+          rw [List.foldlM_append] at h'
+          cases h2 : pre.foldlM (fixsignsRefComp S true B) A1 with
+          | error e => rw [h2] at h'; cases h'
+          | ok A2 =>
+            rw [h2] at h'
+            have h'' : (r :: suf).foldlM (fixsignsRefComp S true B) A2 = .ok A' := h'
+            rw [List.foldlM_cons] at h''
+            cases h3 : fixsignsRefComp S true B A2 r with
+            | error e => rw [h3] at h''; cases h''
+            | ok A3 =>
+              obtain ⟨hr3, _⟩ := fixsignsRefComp_flips hS B A2 r h3
+              obtain ⟨_, q2, _⟩ := foldlM_fixsignsRefComp_other hS B A1 pre h2
+              rw [q2, g2] at hr3
+              exact hc hr3
+        have := ih A1 hnd.2 h r hr (by rw [negCount_congr g1 (g6 r hne hrA)]; exact hev) n (by rw [g1]; exact hn)
+        exact this
+
+theorem fixsignsRef_even {S : Services α} (hS : S.Lawful) (K other : Ktensor α) {K' A B : Ktensor α}
+    (h : fixsignsRef S K other = .ok K') (hA : normalize S K none false .two none = .ok A)
+    (hB : normalize S other none false .two none = .ok B) (r : Nat) (hr : r < other.ncomp)
+    (hev : negCount A B r % 2 = 0) : ∀ n, n < K.factors.length → 0 ≤ refScore K' B r n := by
+  obtain ⟨_, _, A0, B0, hA0, hB0, hf⟩ := fixsignsRef_eq S K other h
+  rw [hA] at hA0; injection hA0 with hA0; subst hA0
+  rw [hB] at hB0; injection hB0 with hB0; subst hB0
+  have rA := normalize_reparam hS K none false .two none hA
+  have rB := normalize_reparam hS other none false .two none hB
+  intro n hn
+  exact foldlM_fixsignsRefComp_even hS B A _ List.nodup_range hf r
+    (List.mem_range.2 (by rw [rB.ncomp]; exact hr)) hev n (by rw [rA.ndims]; exact hn)
+
 end field
 end Ktensor
 end Pyttb
